@@ -132,6 +132,10 @@ class Stream:
         return False
 
 
+class DriverTimeout(Exception):
+    pass
+
+
 class Driver:
     def __init__(self, prop):
         self.path = driver_path(prop)
@@ -143,7 +147,13 @@ class Driver:
         if not self.ok:
             raise RuntimeError("driver not built")
         data = "\n".join(lines) + "\n"
-        p = subprocess.run([self.path], input=data.encode(), stdout=subprocess.PIPE, stderr=subprocess.PIPE, timeout=1800)
+        # the native driver answers ~10^5 lines per second; a batch that takes minutes means the model
+        # was driven into a pathological computation by what the implementation produced
+        limit = max(180.0, 0.05 * len(lines))
+        try:
+            p = subprocess.run([self.path], input=data.encode(), stdout=subprocess.PIPE, stderr=subprocess.PIPE, timeout=limit)
+        except subprocess.TimeoutExpired:
+            raise DriverTimeout(f"the model driver did not answer {len(lines)} lines within {limit:.0f} s") from None
         outs = p.stdout.decode().split("\n")
         if outs and outs[-1] == "":
             outs.pop()
@@ -393,6 +403,9 @@ CASE_TIMEOUT_S = float(os.environ.get("VERIF_CASE_TIMEOUT", "20"))
 
 
 class watchdog:
+    def __init__(self, seconds=None):
+        self.seconds = seconds
+
     """SIGALRM based per-case time limit (main thread only; a harness that installs its own, shorter
     timer inside simply replaces this one for the duration)"""
 
@@ -406,7 +419,7 @@ class watchdog:
                 raise HangTimeout()
 
             self.old = signal.signal(signal.SIGALRM, fire)
-            signal.setitimer(signal.ITIMER_REAL, CASE_TIMEOUT_S)
+            signal.setitimer(signal.ITIMER_REAL, self.seconds or CASE_TIMEOUT_S)
         return self
 
     def __exit__(self, *a):
@@ -460,6 +473,32 @@ def eval_oracle(stream, case, r):
         if what is None:
             raise
         return what
+
+
+def guarded_cases(gen, limit, hung):
+    """draw up to `limit` cases from a stream's generator under the per-case watchdog: some generators
+    drive the implementation while they build a case (e.g. encode a body with the real encoder), so a
+    change that makes the implementation loop would otherwise hang the check outside every guard.
+    On a time-out the stream name is recorded in `hung` and generation stops."""
+    out = []
+    try:
+        # `gen` is a thunk: a stream may build its case list eagerly inside cases()
+        with watchdog(max(300.0, 15 * CASE_TIMEOUT_S)):
+            it = iter(gen())
+    except HangTimeout:
+        hung.append(True)
+        return out
+    while len(out) < limit:
+        try:
+            with watchdog():
+                c = next(it)
+        except StopIteration:
+            break
+        except HangTimeout:
+            hung.append(True)
+            break
+        out.append(c)
+    return out
 
 
 def run_stream(stream, cases, driver, model_ok, stats):
@@ -526,7 +565,13 @@ def run_stream(stream, cases, driver, model_ok, stats):
                 idx.append(i)
     models = {}
     if lines:
-        outs = driver.batch(lines)
+        try:
+            outs = driver.batch(lines)
+        except DriverTimeout as e:
+            # not an infrastructure failure: the inputs of the model come from the case and from what
+            # the implementation answered; the stream is recorded as a broken correspondence
+            outs = []
+            disagreements.append({"stream": stream.name, "case": cases[idx[0]], "real": reals[idx[0]], "model": f"<{e}>"})
         for i, o in zip(idx, outs):
             try:
                 models[i] = stream.canon_model(cases[i], o)
@@ -616,6 +661,7 @@ def main(check: Check, argv):
     # 4 correspondence + oracle
     budget = check.quick_budget if args.tier == "quick" else check.thorough_budget
     all_viol, all_dis = [], []
+    gen_hung = []
     stream_stats = {}
     samples = []
     def run_round(k):
@@ -627,11 +673,11 @@ def main(check: Check, argv):
             rng = random.Random(f"{seed}:{prop}:{st.name}" + (f":round{k}" if k else ""))
             stats = stream_stats.setdefault(st.name, {})
             cases = [] if k else list(st.corpus) + _corpus_files(prop, st.name)
-            gen = st.cases(rng, args.tier)
-            for c in gen:
-                cases.append(c)
-                if len(cases) >= budget:
-                    break
+            hung = []
+            cases += guarded_cases(lambda: st.cases(rng, args.tier), max(budget - len(cases), 0), hung)
+            if hung:
+                gen_hung.append(st.name)
+                log(f"stream {st.name}: the case generator (which drives the implementation) did not return within the per-case time limit")
             ts = time.time()
             try:
                 v, d = run_stream(st, cases, driver, model_ok, stats)
@@ -668,7 +714,7 @@ def main(check: Check, argv):
 
     # 6 failing-input search when something broke
     searched = 0
-    if (broken or all_dis) and not [v for v in all_viol if v.key not in known]:
+    if (broken or all_dis or gen_hung) and not [v for v in all_viol if v.key not in known]:
         log("proof obligation or correspondence broken: searching the implementation for a failing input")
         for st in check.streams:
             rng = random.Random(f"{seed}:{prop}:{st.name}:search")
@@ -679,11 +725,8 @@ def main(check: Check, argv):
                     cand += list(st.mutate(s, rng))
                 except Exception:  # noqa: BLE001
                     pass
-            g = st.cases(rng, "thorough")
-            for c in g:
-                cand.append(c)
-                if len(cand) >= 4 * budget:
-                    break
+            if st.name not in gen_hung:
+                cand += guarded_cases(lambda: st.cases(rng, "thorough"), max(4 * budget - len(cand), 0), [])
             for c in cand:
                 searched += 1
                 r = real_out(st, c)
@@ -742,7 +785,7 @@ def main(check: Check, argv):
     # 7 verdict + evidence
     status = 0
     replay_path = None
-    if new_viol or broken or all_dis:
+    if new_viol or broken or all_dis or gen_hung:
         os.makedirs(os.path.join(VERIF, "replays"), exist_ok=True)
         replay_path = os.path.join(VERIF, "replays", f"{prop}-{args.tier}-{seed}.json")
         rep = {
@@ -752,6 +795,7 @@ def main(check: Check, argv):
             "lean_detail": lean.get("detail", "")[-4000:],
             "disagreements": all_dis[:20],
             "failing_input_found": bool(new_viol),
+            "case_generators_that_did_not_return": gen_hung,
             "searched_cases": searched,
         }
         with open(replay_path, "w") as f:
@@ -761,7 +805,7 @@ def main(check: Check, argv):
             log(f"violation in stream {v.stream}: {v.what}; case={json.dumps(v.case)[:300]}")
             print(f"VIOLATION property={prop} replay={replay_path}", flush=True)
         else:
-            what = "; ".join(broken[:3]) if broken else f"correspondence {all_dis[0]['stream']}"
+            what = "; ".join(broken[:3]) if broken else (f"correspondence {all_dis[0]['stream']}" if all_dis else f"case generator of stream {gen_hung[0]} (drives the implementation) did not return")
             log(f"no longer shown to hold: {what}")
             if all_dis:
                 d = all_dis[0]
